@@ -62,7 +62,7 @@ class Res:
                         c.assume(raw[j] <= raw[j + 1])
         i.chi2 = chi2
         i.model_name = np.array(list(names), dtype='U30')
-        i.model_id = np.arange(n)
+        i.model_id = np.arange(n)[::-1] * 2 + 3          # grid indices of the ranked models: deliberately not 0..n-1
         i.model_fluxes = symnp.sym_array('mf_' + tag, (n, nf)) if with_fluxes else None
         md, fl, ex = meta if meta is not None else self.meta_values(nf)
         i.meta.model_dir, i.meta.filters, i.meta.extinction_law = md, fl, ex
